@@ -170,3 +170,7 @@ def str_len(s):
 
 def singleton(s, x):
     return set(s) == {x}
+
+
+def forall_keys(d, p):
+    return all(p(k) for k in d)
